@@ -49,14 +49,24 @@ def win_entries(inp):
 class RngIndex:
     """Maps a logged rng key to its index in the split chain of the node's initial key (-1 if absent)."""
 
-    def __init__(self, initial_rng, n=400):
-        self.maps = {}
+    def __init__(self, initial_rng, n=400, limit=6400):
+        self.maps, self.last, self.limit = {}, {}, limit
         for name, words in initial_rng.items():
             ch = probes.rng_chain(onp.array(words, dtype=onp.uint32), n)
             self.maps[name] = {k: i for i, k in enumerate(ch)}
+            self.last[name] = ch[-1]
 
     def idx(self, name, key):
-        return self.maps[name].get(tuple(key), -1)
+        key = tuple(key)
+        m = self.maps[name]
+        # a never-blocking source node can run thousands of steps ahead under an unfair schedule: extend the chain on demand
+        while key not in m and len(m) < self.limit:
+            n0 = len(m)
+            ch = probes.rng_chain(onp.array(self.last[name], dtype=onp.uint32), n0 + 1)   # ch[0] is the current last key
+            for i, k in enumerate(ch[1:]):
+                m.setdefault(k, n0 + i)
+            self.last[name] = ch[-1]
+        return m.get(key, -1)
 
 
 def build_trace(tid, cfg, res, initial, rngidx=None, eps=0, epsrec=0, rflags=None, check_log=True, ref=None,
